@@ -86,7 +86,7 @@ func RunTLC(specDir, scratch string, o TLCOpts) (*TLCResult, error) {
 		o.Workers = 8
 	}
 	if o.Timeout == 0 {
-		o.Timeout = 10 * time.Minute
+		o.Timeout = 40 * time.Minute // (a loaded machine stretches the replay that TLC feeds; a hang is still noticed)
 	}
 	if o.HeapGB == 0 {
 		o.HeapGB = 8
